@@ -25,7 +25,7 @@ ANCHORS = {"abelian_core.py": ["is_valid_sector", "check", "_tensordot_blockwise
            "block_core.py": ["_binary_blockwise_op"]}
 ASSUMPTIONS = ["float results of LAPACK are serialised structure-only (validity does not depend on values)"]
 
-MODEL_STOPS = {"svd_truncated", "reshape"}
+MODEL_STOPS = {"svd_truncated"}
 REKEY = {"transpose", "fuse", "unfuse", "unfuse_all", "tensordot", "einsum", "squeeze", "expand_dims", "dagger",
          "reshape", "matmul", "qr", "svd", "eigh", "solve", "svd_truncated", "align_axes"}
 
